@@ -287,7 +287,26 @@ DefaultScript(id, k, adv17, api) ==
   IN ScriptOf(id, "default", SS, << [k |-> "rules", rules |-> CipherRules(data) \o LegRules(S17, S3)], call, ExpectSession(SS) >> \o Commands(SS, <<2, 9>>), [mut |-> "none"])
 DefaultSet == { DefaultScript("def-" \o ToString(k) \o (IF a THEN "-17-" ELSE "-3-") \o api, k, a, api) : k \in 1..(IF Full THEN 12 ELSE 3), a \in BOOLEAN, api \in {"NewSession", "NewV2Session"} }
 
+\* ------------------------------------------- two establishments on one connection with different credentials
+\* the caller keeps one password / KG buffer and rewrites it in place between the calls (harness option reuseCreds):
+\* (a) the BMC still holds the old credential: no session (wrong password => ErrIncorrectPassword, wrong KG => ICV error);
+\* (b) the BMC holds the new one too: the session must be established with the new keys
+Rekey(id, S1, kind, bmcKnowsNew) ==
+  LET S2 == IF kind = "pw" THEN [S1 EXCEPT !.pw = [i \in 1..Len(S1.pw) |-> (S1.pw[i] + 1 + i) % 256]]
+            ELSE [S1 EXCEPT !.kg = [i \in 1..20 |-> (S1.kg[i] + 7 * i + 1) % 256]]
+      first == << NewSessionCall(S1, ExpSession(S1)), HonestOsr(S1), HonestRakp2(S1), HonestRakp4(S1), ExpectSession(S1), CloseCall(S1), CloseReact(S1, 1, 0) >>
+      second == IF bmcKnowsNew
+                THEN << NewSessionCall(S2, ExpSession(S2)), HonestOsr(S2), HonestRakp2(S2), HonestRakp4(S2), ExpectSession(S2) >>
+                ELSE IF kind = "pw"
+                THEN << NewSessionCall(S2, ExpErr(S2, "ErrIncorrectPassword")), HonestOsr(S1), HonestRakp2(S1), ExpectSession(S1) >>
+                ELSE << NewSessionCall(S2, ExpErr(S2, "error")), HonestOsr(S1), HonestRakp2(S1), HonestRakp4(S1), ExpectSession(S1) >>
+  IN ScriptOf(id, "rekey", S1, first \o second, [mut |-> IF bmcKnowsNew THEN "none" ELSE (IF kind = "pw" THEN "wrongPw" ELSE "wrongKg")])
+RekeySet ==
+  { LET s == SetToSuite(q) IN
+    Rekey("rekey-" \o ToString(q) \o "-" \o kind \o (IF kn THEN "-new" ELSE "-old"), Scn(13000 + q + Seed, s[1], s[2], 1, 4 + (q % 9), 1 + (q % 20), TRUE, 4, (q % 2) = 0), kind, kn)
+    : q \in 1..(IF Full THEN 36 ELSE 9), kind \in {"pw", "kg"}, kn \in BOOLEAN }
 Scripts == CASE Family = "honest" -> HonestSet \cup NoneSet \cup DefaultSet
+             [] Family = "rekey" -> RekeySet
              [] Family = "lifecycle" -> LifecycleSet
              [] Family = "long" -> LongSet
              [] Family = "mutate" -> MutateSet
